@@ -1047,6 +1047,35 @@ mod api {
             }
             crate::verif_driver::reset_user_files();
         }
+        // a user auto-correct entry with an EMPTY replacement for exactly the word typed: the list the host is shown and the list the
+        // engine indexes stay the same list -- the returned suggestion is self-consistent (C02), a committed row is the text that is
+        // learned, and nothing panics (C10)
+        for doc in ["{\"ami\":\"\"}", "{\"ami\":\"\",\"sesh\":\"\"}"] {
+            o.cases += 1;
+            crate::verif_driver::reset_user_files();
+            std::fs::write(crate::verif_driver::user_file_path("autocorrect.json"), doc).unwrap();
+            let r = std::panic::catch_unwind(std::panic::AssertUnwindSafe(|| {
+                let mut s = Sess::new(cfgv.clone());
+                let sg = s.typ("ami").unwrap();
+                if let Some(e) = check_sg(&sg, Some("ami")) { return Some(json!({"clause": format!("C02 C10 {} (user auto-correct entry with an empty replacement)", e), "history": s.history(), "observed": show(&sg)})); }
+                if sg.is_lonely() || sg.len() < 2 { s.finish(); return None; }
+                // commit the LAST shown row, then type the word again: that very text is preselected
+                let last = sg.len() - 1;
+                let text = sg.get_suggestions()[last].clone();
+                s.commit(last);
+                let again = s.typ("ami").unwrap();
+                let out = if let Some(e) = check_sg(&again, Some("ami")) { Some(json!({"clause": format!("C02 C10 {} (after a commit; user auto-correct entry with an empty replacement)", e), "history": s.history(), "observed": show(&again)})) }
+                    else if again.get_suggestions().get(again.previously_selected_index()) != Some(&text) { Some(json!({"clause": "C09 C10 the committed row is the choice that is learned (user auto-correct entry with an empty replacement)", "history": s.history(), "observed": show(&again), "expected": text})) }
+                    else { None };
+                s.finish();
+                out
+            }));
+            match r {
+                Err(_) => o.fail(json!({"clause": "C01 C10 user auto-correct entries with empty strings never stop the keyboard (panic)", "history": {"config": cfgv, "file": "autocorrect.json", "content": doc, "events": "type ami; commit the last row; type ami"}})),
+                Ok(Some(f)) => o.fail(f),
+                Ok(None) => { o.nontrivial += 1; }
+            }
+        }
         // entries with empty strings arriving through a reload of the configuration
         for doc in ["{\"zzq\":\"\",\"zzx\":\"ami\"}", "{\"zzq\":\"`\"}", "{\"\":\"\"}"] {
             o.cases += 1;
